@@ -288,26 +288,29 @@ structure Cfg where
   callRecreate : Bool    -- MsgpackSerializer.loadsCall passes vargs and kwargs through recreate_classes
   resRecreate : Bool     -- MsgpackSerializer.loads passes the result through recreate_classes
   kwNoneSafe : Bool      -- MarshalSerializer.dumpsCall accepts kwargs=None
+  resListItems : Bool    -- MarshalSerializer.dumps also converts the items of a top-level list
+  callListItems : Bool   -- MarshalSerializer.dumpsCall also converts the items of an argument that is a list
   deriving DecidableEq, Repr
 
 def srcCfg : Cfg :=
   { callExtHook := Pyro.Gen.C01.msgpackCallExtHook, resExtHook := Pyro.Gen.C01.msgpackLoadsExtHook,
     callObjHook := Pyro.Gen.C01.msgpackCallObjectHook, resObjHook := Pyro.Gen.C01.msgpackLoadsObjectHook,
     callRecreate := Pyro.Gen.C01.msgpackCallRecreate, resRecreate := Pyro.Gen.C01.msgpackLoadsRecreate,
-    kwNoneSafe := Pyro.Gen.C01.marshalKwargsNoneSafe }
+    kwNoneSafe := Pyro.Gen.C01.marshalKwargsNoneSafe,
+    resListItems := Pyro.Gen.C01.marshalDumpsListItems, callListItems := Pyro.Gen.C01.marshalDumpsCallListItems }
 
 /-- The configurations under which the property holds: `ext_hook` on both paths, kwargs=None tolerated,
-    and class dicts handled on both paths either by msgpack's `object_hook` (inside `unpackb`) or by
-    `recreate_classes` afterwards. -/
+    class dicts handled on both paths either by msgpack's `object_hook` (inside `unpackb`) or by
+    `recreate_classes` afterwards, and marshal's one-level list conversion on both paths or on neither. -/
 def Cfg.good (c : Cfg) : Bool :=
-  c.callExtHook && c.resExtHook && c.kwNoneSafe &&
+  c.callExtHook && c.resExtHook && c.kwNoneSafe && (c.resListItems == c.callListItems) &&
   ((c.callObjHook && c.resObjHook && !c.callRecreate && !c.resRecreate) ||
    (!c.callObjHook && !c.resObjHook && c.callRecreate && c.resRecreate))
 
 /-- object_hook variant (the source with the one-line `ext_hook` repair) -/
-def hookCfg : Cfg := ⟨true, true, true, true, false, false, true⟩
+def hookCfg : Cfg := ⟨true, true, true, true, false, false, true, false, false⟩
 /-- top-down variant (`unpackb(ext_hook=...)` then `recreate_classes`) -/
-def topDownCfg : Cfg := ⟨true, true, false, false, true, true, true⟩
+def topDownCfg : Cfg := ⟨true, true, false, false, true, true, true, true, true⟩
 
 /-! ### phase 1: dumps -/
 
@@ -486,6 +489,41 @@ def marshalConv : Val → Except Err Val
   | .ext _ _ => .error .oom
   | v => .ok v
 
+def marshalConvList : Vals → Except Err Vals
+  | .nil => .ok .nil
+  | .cons x xs => do
+    let y ← marshalConv x
+    let ys ← marshalConvList xs
+    .ok (.cons y ys)
+
+def marshalConvVals : Pairs → Except Err Pairs
+  | .nil => .ok .nil
+  | .cons k v rest => do
+    let v' ← marshalConv v
+    let r ← marshalConvVals rest
+    .ok (.cons k v' r)
+
+/-- what `dumps` / `dumpsCall` do with one top-level object before `marshal.dumps`: when `items` is set
+    (extracted fact) the items of a *list* are converted too (`type(data) is list`, one level), then
+    `convert_obj_into_marshallable` on the object itself. -/
+def marshalTop (items : Bool) : Val → Except Err Val
+  | .list xs => if items then do let ys ← marshalConvList xs; .ok (.list ys) else .ok (.list xs)
+  | v => marshalConv v
+
+def marshalTopList (items : Bool) : Vals → Except Err Vals
+  | .nil => .ok .nil
+  | .cons x xs => do
+    let y ← marshalTop items x
+    let ys ← marshalTopList items xs
+    .ok (.cons y ys)
+
+def marshalTopVals (items : Bool) : Pairs → Except Err Pairs
+  | .nil => .ok .nil
+  | .cons k v rest => do
+    let v' ← marshalTop items v
+    let r ← marshalTopVals items rest
+    .ok (.cons k v' r)
+
 /-! ### phase 2: the library's loads (+ msgpack's hooks, which run inside it) -/
 
 /-- after serpent's mapping: can the value be put in a set / used as a dict key? -/
@@ -598,7 +636,7 @@ def resRT (c : Cfg) (s : Ser) (v : Val) : Except Err Val :=
     let d ← dec .serpent false false w
     recreate .serpent d
   | .marshal => do
-    let m ← marshalConv v
+    let m ← marshalTop c.resListItems v
     let w ← enc .marshal true m
     let d ← dec .marshal false false w
     recreate .marshal d
@@ -610,20 +648,6 @@ def resRT (c : Cfg) (s : Ser) (v : Val) : Except Err Val :=
     let w ← enc .msgpack true v
     let d ← dec .msgpack c.resExtHook c.resObjHook w
     if c.resRecreate then recreate .msgpack d else .ok d
-
-def marshalConvList : Vals → Except Err Vals
-  | .nil => .ok .nil
-  | .cons x xs => do
-    let y ← marshalConv x
-    let ys ← marshalConvList xs
-    .ok (.cons y ys)
-
-def marshalConvVals : Pairs → Except Err Pairs
-  | .nil => .ok .nil
-  | .cons k v rest => do
-    let v' ← marshalConv v
-    let r ← marshalConvVals rest
-    .ok (.cons k v' r)
 
 def vStr (s : Str) : Val := .str s
 
@@ -643,11 +667,11 @@ def callRT (c : Cfg) (s : Ser) (vargs kwargs : Val) : Except Err (Val × Val) :=
     | _ => .error .oom
   | .marshal => do
     let vs ← match vargs with
-      | .list xs => marshalConvList xs
-      | .tuple xs => marshalConvList xs
+      | .list xs => marshalTopList c.callListItems xs
+      | .tuple xs => marshalTopList c.callListItems xs
       | _ => .error .oom
     let kw ← match kwargs with
-      | .dict kvs => do let r ← marshalConvVals kvs; .ok (Val.dict r)
+      | .dict kvs => do let r ← marshalTopVals c.callListItems kvs; .ok (Val.dict r)
       | .none => if c.kwNoneSafe then .ok (Val.dict .nil) else .error .attribute   -- None.items()
       | _ => .error .oom
     let w ← enc .marshal true (.tuple (.cons (vStr sO) (.cons (vStr sM) (.cons (.list vs) (.cons kw .nil)))))
